@@ -234,6 +234,17 @@ def make_case(kind, params, seed):
     elif data == "pos":
         o, h, f = (np.abs(tas_like(nprs, n, 6, 2, ties)) + 0.25 for n in (nO, nH, nF))
         f = spice_future(nprs, f, h, lo_floor=0.01)
+    elif data == "degc":
+        # quantifier "for all series": SIGNED data around zero (temperature in degC, a wind component, an anomaly); the three
+        # sample means take either sign independently, so a ratio of two means (multiplicative detrending) is negative in about
+        # half of the cases
+        mus = [float(nprs.choice([-1.0, 1.0]) * nprs.uniform(0.3, 3.0)) for _ in range(3)]
+        o, h, f = (tas_like(nprs, n, mu, sd, ties) for n, mu, sd in ((nO, mus[0], 3), (nH, mus[1], 4), (nF, mus[2], 5)))
+        f = spice_future(nprs, f, h)
+    elif data == "neg":
+        # a variable that is negative throughout (degC in a polar winter, depth below a datum): the mirror image of "pos"
+        o, h, f = (-(np.abs(tas_like(nprs, n, 6, 2, ties)) + 0.25) for n in (nO, nH, nF))
+        f = spice_future(nprs, f, h)
     elif data == "prflux":
         # flux magnitudes: obs wetter (fewer dry days, comparable mean) so that the lowest ranks map to distinct positive values
         unit = float(nprs.choice([1 / 86400, 1e-1 / 86400, 1e-2 / 86400, 1e-4 / 86400]))
@@ -277,7 +288,14 @@ def make_case(kind, params, seed):
             f[k[:3]] = thr * np.array([1.0, 1.25, 1.6])[: k[:3].size]
             f[k[3:]] = 0.0
     if nprs.random() < 0.6:  # far tails: saturation of fitted cdfs / extrapolation far outside the calibration range
-        f = far_tail(nprs, f, h, positive=(data != "tas"))
+        f = far_tail(nprs, f, h, positive=(data not in ("tas", "degc", "neg")))
+    if data in ("degc", "neg") and params.get("detrending") == "multiplicative":
+        # the only guard of multiplicative detrending (qmGuard): neither mean is zero (the code divides by both)
+        while float(np.mean(h)) == 0.0:
+            h[0] += 0.5
+        while float(np.mean(f)) == 0.0:
+            f[0] += 0.5
+        params = {**params, "_delta_negative": bool(np.mean(f) / np.mean(h) < 0)}
     deb, slack = build_debiaser(kind, params)
     return deb, o, h, f, slack, params
 
@@ -305,6 +323,8 @@ def run_case(kind, params, seed):
     method = "_apply_debiasing_steps" if kind == "CDFt" else "apply_on_window"
     base = {"n": int(f.size), "ties": int(f.size - np.unique(f).size), "zeros": int((f == 0).sum()),
             "outside": int(((f < h.min()) | (f > h.max())).sum())}
+    if "_delta_negative" in params:
+        base["delta_negative"] = params["_delta_negative"]
     try:
         out = run_window(deb, o, h, f, method)
     except Exception as ex:  # noqa: BLE001  well-formed input: the window function must return
@@ -435,8 +455,11 @@ def run_isimip_case(var, overrides, stage, seed, dry=None, mode="normal"):
     overrides = dict(overrides)
     shift = float(overrides.pop("_shift", 0.0))  # data, bounds and thresholds in units shifted by a constant
     nO, nH, nF = (int(nprs.randint(120, 330)) for _ in range(3)) if mode == "bell" else (int(nprs.randint(25, 120)) for _ in range(3))
-    o, h, f = (isimip_data(var, nprs, n, role, dry, "normal" if mode == "atthr" else mode) for n, role in ((nO, "obs"), (nH, "hist"), (nF, "fut")))
-    if mode == "normal" and nprs.random() < 0.5:
+    o, h, f = (isimip_data(var, nprs, n, role, dry, "normal" if mode in ("atthr", "degc") else mode) for n, role in ((nO, "obs"), (nH, "hist"), (nF, "fut")))
+    if mode == "degc":  # quantifier "for all series": the unbounded variable in units in which the data change sign (tas in degC)
+        off = float(nprs.choice([283.0, 285.0, 287.0, 300.0]))
+        o, h, f = o - off, h - off, f - off
+    if mode in ("normal", "degc") and nprs.random() < 0.5:
         f = isimip_far_tail(var, nprs, f, h, shift)
     if mode != "allbounds" and nprs.random() < 0.5 and nF >= 8:  # ties among the future values
         a = nprs.choice(nF, 4, replace=False)
@@ -677,6 +700,198 @@ def sequence_cases(rng, tier, mult):
         for var, ov in (("pr", {}), ("hurs", {"nonparametric_qm": False}), ("tas", {"detrending": False}), ("tasskew", {})):
             cases.append(("ISIMIP", {"var": var, "overrides": ov}, rng.choice(["calls", "grid"])))
     return cases
+
+
+# ------------------------------------------------------------------ explicit time axes in any storage order
+# Quantifier "for all inputs" x "within one calibration window": the window is a set of TIME STEPS (a day-of-year window, a window
+# over the years of cm_future, a calendar month), not a stretch of the array.  The cases above only ever handed over chronological
+# daily axes shared by the three series, where every window is one contiguous block per year.  Here each series has its own dates
+# (own span, own stride) in its own storage order — reversed, shuffled, interior blocks swapped, whole years out of order, two
+# ensemble members / time slices of the same dates stored one after the other — in one of the accepted encodings; the oracle
+# collects the steps adjusted by one window with its own calendar (python dates) and demands the order relation inside each.
+FUT_STORAGE = ["reverse", "shuffle", "inner-blocks", "year-blocks", "stacked", "stacked", "none"]
+CAL_STORAGE = ["none", "none", "reverse", "shuffle", "inner-blocks", "year-blocks", "stacked"]
+DATED_ENCODINGS = ["date", "date", "datetime", "M8D", "M8s"]
+
+
+def dated_axis(prs, y0, ny, stride, storage):
+    """python dates: every `stride`-th day of the years y0 … y0+ny-1, stored in the order `storage`"""
+    import datetime
+
+    d0 = datetime.date(y0, 1, 1)
+    total = (datetime.date(y0 + ny, 1, 1) - d0).days
+    dates = [d0 + datetime.timedelta(days=k) for k in range(prs.randrange(stride), total, stride)]
+    n = len(dates)
+    if storage == "stacked":  # two members of the same dates, one after the other
+        dates = dates + dates
+    elif storage == "year-blocks":
+        ys = list(range(y0, y0 + ny))
+        prs.shuffle(ys)
+        dates = [d for y in ys for d in dates if d.year == y]
+    elif storage == "reverse":
+        dates = dates[::-1]
+    elif storage == "shuffle":
+        prs.shuffle(dates)
+    elif storage == "inner-blocks" and n >= 8:
+        a = prs.randint(1, n - 5)
+        b = prs.randint(a + 1, n - 3)
+        c = prs.randint(b, n - 2)
+        dates = dates[:a] + dates[b:c + 1] + dates[a:b] + dates[c + 1:]
+    return np.array(dates, dtype=object)
+
+
+def dated_values(nprs, data, dates, role, ties, dry):
+    """values for the given dates (storage order = order of `dates`): noise + annual cycle + trend over the years"""
+    k = {"obs": 0, "hist": 1, "fut": 2}[role]
+    n = dates.size
+    doy = np.array([d.timetuple().tm_yday for d in dates], dtype=float)
+    yrs = np.array([d.year for d in dates], dtype=float)
+    cyc = np.cos(2 * np.pi * (doy - 200) / 365.25)
+    if data in ("tas", "degc"):
+        mu = 283.0 + 2 * k if data == "tas" else float(nprs.choice([-1.0, 1.0]) * nprs.uniform(0.3, 3.0))
+        x = mu + 5.0 * cyc + 0.08 * (yrs - yrs.min()) + nprs.normal(0, 3 + k, n)
+        return np.round(x * 2) / 2 if ties else x
+    if data == "pos":
+        return np.abs(tas_like(nprs, n, 6 + k, 2, ties)) * (1 + 0.3 * cyc) + 0.25
+    if data == "pr":
+        return pr_like(nprs, n, min(0.7, dry * (1 + 0.1 * (k - 1))), 2.0 + k, ties)
+    return isimip_data(data[len("isimip:"):], nprs, n, role, dry)
+
+
+def run_dated_case(kind, params, mode, seed):
+    """apply_location of ONE debiaser with explicit time axes.  mode:
+      "windows"  day-of-year running window (every RunningWindowDebiaser; ISIMIP)        groups = the steps one window adjusts
+      "years"    CDFt, window over the years of cm_future only                            groups = the years one window adjusts
+      "both"     CDFt as constructed by default: year windows inside day-of-year windows  groups = intersection
+      "months"   ISIMIP with running_window_mode=False                                    groups = calendar months
+    returns (problem | None, info)"""
+    from harness import probes
+
+    _quiet()
+    prs = random.Random(seed)
+    nprs = np.random.RandomState(seed)
+    data = params.get("data", "tas")
+    precip = data in ("pr", "isimip:pr")
+    stride = prs.choice([1, 2, 3]) if precip else prs.choice([2, 3, 5])
+    year_windows = mode in ("years", "both")
+    nyO, nyH = prs.randint(3, 5), prs.randint(3, 5)
+    nyF = prs.randint(6, 10) if year_windows else prs.randint(3, 4)
+    y0O, y0H, y0F = prs.randint(1975, 1990), prs.randint(1975, 1990), prs.randint(2020, 2060)
+    stO, stH, stF = prs.choice(CAL_STORAGE), prs.choice(CAL_STORAGE), prs.choice(FUT_STORAGE)
+    dO, dH, dF = dated_axis(prs, y0O, nyO, stride, stO), dated_axis(prs, y0H, nyH, stride, stH), dated_axis(prs, y0F, nyF, stride, stF)
+    enc = [prs.choice(DATED_ENCODINGS) for _ in range(3)]
+    ties = prs.random() < 0.4
+    if data == "degc" and params.get("detrending") == "multiplicative":
+        ties = False  # the only guard of multiplicative detrending: no window mean is exactly 0 (continuous values: probability 0)
+    dry = prs.uniform(0.1, 0.6)
+    o, h, f = (dated_values(nprs, data, d, role, ties, dry) for d, role in ((dO, "obs"), (dH, "hist"), (dF, "fut")))
+    L, S = prs.choice([(31, 31), (61, 31), (61, 61), (91, 31), (91, 61)])
+    LY, SY = prs.choice([(3, 1), (3, 3), (5, 1), (5, 3), (7, 3), (9, 5)])
+    info = {"mode": mode, "storage": [stO, stH, stF], "encoding": enc, "stride": stride, "n": int(f.size),
+            "future_chronological": bool(all(dF[i] <= dF[i + 1] for i in range(dF.size - 1)))}
+    np.random.seed(seed % (2**31 - 1))
+    try:
+        with warnings.catch_warnings(), np.errstate(all="ignore"):
+            warnings.simplefilter("ignore")
+            if kind == "ISIMIP":
+                rw = {"running_window_mode": False} if mode == "months" else \
+                    {"running_window_mode": True, "running_window_length": L, "running_window_step_length": S}
+                deb, slack = make_isimip(params["var"], {**params.get("overrides", {}), **rw}), 1e-12
+            else:
+                extra = dict(running_window_mode=mode in ("windows", "both"))
+                if extra["running_window_mode"]:
+                    extra.update(running_window_length=L, running_window_step_length=S)
+                if kind == "CDFt":
+                    extra["running_window_mode_over_years_of_cm_future"] = year_windows
+                    if year_windows:
+                        extra.update(running_window_over_years_of_cm_future_length=LY, running_window_over_years_of_cm_future_step_length=SY)
+                deb, slack = build_debiaser(kind, params, **extra)
+            tO, tH, tF = (probes.present(d, e) for d, e in zip((dO, dH, dF), enc))
+            out = np.asarray(deb.apply_location(o.copy(), h.copy(), f.copy(), tO, tH, tF), dtype=float)
+            # the windows, from the harness's own calendar arithmetic on the python dates
+            doyF, yrsF = probes.indep_doy(dF), np.array([d.year for d in dF], dtype=int)
+            if mode == "windows":
+                groups = [(f"window centred on day {int(c)}", np.asarray(idx)) for c, idx in deb.running_window.use(doyF)]
+            elif mode == "months":
+                mon = np.array([d.month for d in dF], dtype=int)
+                groups = [(f"month {m}", np.where(mon == m)[0]) for m in range(1, 13)]
+            elif mode == "years":
+                groups = [(f"years {int(yd[0])}-{int(yd[-1])}", np.where(np.isin(yrsF, yd))[0])
+                          for yd, _ in deb.running_window_over_years_of_cm_future.use(yrsF)]
+            else:
+                groups = []
+                for c, idx in deb.running_window.use(doyF):
+                    idx = np.asarray(idx)
+                    win = np.asarray(deb.running_window.get_indices_vals_in_window(doyF, c))
+                    for yd, _ in deb.running_window_over_years_of_cm_future.use(yrsF[win]):
+                        groups.append((f"window centred on day {int(c)}, years {int(yd[0])}-{int(yd[-1])}", idx[np.isin(yrsF[idx], yd)]))
+    except Exception as ex:  # noqa: BLE001  well-formed dated series: apply_location must return
+        prob = {"malformed": f"{type(ex).__name__}: {str(ex)[:200]}"}
+        out = None
+    if out is not None and (out.shape != f.shape or not np.all(np.isfinite(out))):
+        prob = {"malformed": f"result shape {out.shape} for {f.shape} / {int((~np.isfinite(out)).sum()) if out.shape == f.shape else '?'} non-finite values"}
+        out = None
+    series = {"obs": o.tolist(), "cm_hist": h.tolist(), "cm_future": f.tolist(),
+              "time_obs": [d.isoformat() for d in dO], "time_cm_hist": [d.isoformat() for d in dH], "time_cm_future": [d.isoformat() for d in dF],
+              "windows": {"day_of_year": [L, S] if mode in ("windows", "both") else None, "years": [LY, SY] if year_windows else None}}
+    if out is None:
+        return {**prob, **series, "storage": info["storage"], "encoding": enc}, info
+    info["groups"] = len(groups)
+    info["largest_group"] = max((int(np.size(g)) for _, g in groups), default=0)
+    v = group_violation(f, out, groups, slack * scale_of(f, out))
+    if v is None:
+        return None, info
+    label, i, j = v
+    return ({"where": label, "i": i, "j": j, "x_i": float(f[i]), "x_j": float(f[j]), "out_i": float(out[i]), "out_j": float(out[j]),
+             "date_i": dF[i].isoformat(), "date_j": dF[j].isoformat(), "storage": info["storage"], "encoding": enc, **series}, info)
+
+
+def dated_cases(rng, tier, mult):
+    """(kind, params, mode) — every debiaser family of the property, each window kind it has"""
+    cases = []
+    for _ in range((3 if tier == "quick" else 30) * mult):
+        em, im = rng.choice(ECDF_METHODS), rng.choice(IECDF_METHODS)
+        for p, modes in ((dict(em="linear_interpolation", im="linear", shift="additive", ssr=False, data="tas"), ("years", "both", "windows")),
+                         (dict(em="step_function", im="inverted_cdf", shift=rng.choice(["additive", "multiplicative", "no_shift"]), ssr=True, data="pr"),
+                          ("years", "both")),
+                         (dict(em=em, im=im, shift=rng.choice(["additive", "no_shift"]), ssr=False, data="degc"), ("years", rng.choice(["both", "windows"]))),
+                         (dict(em=rng.choice(ECDF_METHODS), im=rng.choice(IECDF_METHODS), shift="multiplicative", ssr=True, data="pr"), ("years",))):
+            for mode in modes:
+                cases.append(("CDFt", p, mode))
+        for kind, p in (("LS", dict(delta=rng.choice(["additive", "multiplicative"]), data="pos")),
+                        ("LS", dict(delta="additive", data="degc")),
+                        ("QMparam", dict(dist="norm", detrending=rng.choice(["additive", "no_detrending", "multiplicative"]), data="degc")),
+                        ("QMnonparam", dict(detrending=rng.choice(["additive", "no_detrending", "multiplicative"]), data="tas")),
+                        ("QMnonparam", dict(detrending="multiplicative", data="pr")),
+                        ("QMpr", dict(model=rng.choice(["hurdle", "ignore_zeros"]), detrending=rng.choice(["multiplicative", "no_detrending"]), data="pr"))):
+            cases.append((kind, p, "windows"))
+        for var, ov in (("pr", {}), ("tas", {"detrending": False}), ("hurs", {}), ("sfcwind", {"nonparametric_qm": True})):
+            cases.append(("ISIMIP", {"var": var, "overrides": ov, "data": "isimip:" + var}, rng.choice(["windows", "months"])))
+    return cases
+
+
+def signed_cases(rng, tier, mult):
+    """Quantifier "for all series" x "parametric and non-parametric branches": data that change sign (degC, wind components,
+    anomalies) or are negative throughout.  Every configuration for which the statement is unconditional is run on them — in
+    particular QuantileMapping with multiplicative detrending, whose scaling factor mean F / mean H is then negative in about
+    half of the cases (`qm_*_mono_signed`: the division reverses the order, the multiplication by the same factor restores it).
+    LinearScaling 'multiplicative' and CDFt's multiplicative shift keep their guard mean obs / mean cm_hist >= 0
+    (`legacy_ls_mult_reverses`), which all-negative data satisfy.  Returns ([(kind, params)], [(var, overrides, stage, dry, mode)])."""
+    deb, isi = [], []
+    for _ in range((5 if tier == "quick" else 80) * mult):
+        deb.append(("LS", dict(delta="additive", data="degc")))
+        deb.append(("LS", dict(delta="multiplicative", data="neg")))
+        for d in ("additive", "multiplicative", "no_detrending"):
+            deb.append(("QMparam", dict(dist="norm", detrending=d, data="degc")))
+            deb.append(("QMnonparam", dict(detrending=d, data="degc")))
+        deb.append(("QMparam", dict(dist="norm", detrending="multiplicative", data="degc")))
+        deb.append(("QMnonparam", dict(detrending="multiplicative", data="degc")))
+        deb.append((rng.choice(["QMparam", "QMnonparam"]), dict(dist="norm", detrending=rng.choice(["additive", "multiplicative", "no_detrending"]), data="neg")))
+        for data, shifts in (("degc", ["additive", "no_shift"]), ("neg", ["additive", "multiplicative", "no_shift"])):
+            deb.append(("CDFt", dict(em=rng.choice(ECDF_METHODS), im=rng.choice(IECDF_METHODS), shift=rng.choice(shifts), ssr=False, data=data)))
+        for ov in ({"detrending": False}, {"detrending": False, "nonparametric_qm": True}):
+            isi.append(("tas", ov, rng.choice(["step6", "window"]), None, "degc"))
+    return deb, isi
 
 
 # ------------------------------------------------------------------ case lists
@@ -1122,6 +1337,47 @@ def run(tier, res, force_search=False):
             continue
         case = {"what": name, "kind": "ISIMIP", "var": var, "overrides": ov, "stage": stage, "dry": dry, "mode": mode, "np_seed": seed, **prob}
         problems.append((describe(name, prob), case, {"what": name}))
+    # signed / all-negative data: own PRNG stream
+    rng_s = random.Random(C.seed() * 15485863 + 9091)
+    deb_s, isi_s = signed_cases(rng_s, tier, mult)
+    n_delta_neg = 0
+    for kind, params in deb_s:
+        seed = rng_s.randint(0, 2**31 - 2)
+        prob, info = run_case(kind, params, seed)
+        name = "signed/" + kind + ":" + ",".join(f"{k}={v}" for k, v in sorted(params.items()))
+        hist["signed/" + kind] = hist.get("signed/" + kind, 0) + 1
+        n_delta_neg += bool(info.get("delta_negative"))
+        res.count((name, info["ties"] > 0, info["outside"] > 0, info.get("delta_negative"), info["n"] // 30), True)
+        if prob is None:
+            continue
+        case = {"what": name, "kind": kind, "params": params, "np_seed": seed, **prob}
+        problems.append((describe(name, prob), case, {"what": name}))
+    for var, ov, stage, dry, mode in isi_s:
+        seed = rng_s.randint(0, 2**31 - 2)
+        prob, info = run_isimip_case(var, ov, stage, seed, dry, mode)
+        name = f"signed/ISIMIP/{var}/{stage}:" + ",".join(f"{k}={v}" for k, v in sorted(ov.items()))
+        hist["signed/ISIMIP/" + stage] = hist.get("signed/ISIMIP/" + stage, 0) + 1
+        res.count((name, info["ties"] > 0, info["n"] // 40), True)
+        if prob is None:
+            continue
+        case = {"what": name, "kind": "ISIMIP", "var": var, "overrides": ov, "stage": stage, "dry": dry, "mode": mode, "np_seed": seed, **prob}
+        problems.append((describe(name, prob), case, {"what": name}))
+    res.extra["signed_cases_with_negative_detrending_factor"] = n_delta_neg
+    # explicit time axes in any storage order: own PRNG stream
+    rng_t = random.Random(C.seed() * 15485863 + 9092)
+    n_unordered = 0
+    for kind, params, mode in dated_cases(rng_t, tier, mult):
+        seed = rng_t.randint(0, 2**31 - 2)
+        prob, info = run_dated_case(kind, params, mode, seed)
+        name = f"dated/{mode}/{kind}:" + ",".join(f"{k}={v}" for k, v in sorted(params.items()) if k not in ("data",))
+        hist["dated/" + mode] = hist.get("dated/" + mode, 0) + 1
+        n_unordered += not info["future_chronological"]
+        res.count((name, tuple(info["storage"]), tuple(info["encoding"]), info["stride"]), not info["future_chronological"])
+        if prob is None:
+            continue
+        case = {"what": name, "kind": "dated", "debiaser": kind, "params": params, "mode": mode, "np_seed": seed, **prob}
+        problems.append((describe(name, prob), case, {"what": name}))
+    res.extra["dated_cases_with_non_chronological_future"] = n_unordered
     res.extra["oracle_cases"] = hist
     res.extra["oracle_skipped"] = skipped
     res.extra["f16_windows_with_inverted_subthreshold_pair"] = f16_hits
@@ -1152,6 +1408,8 @@ def replay(data):
             prob, info = run_isimip_sequence_case(fi["params"]["var"], fi["params"]["overrides"], fi["mode"], fi["np_seed"])
         else:
             prob, info = run_sequence_case(fi["debiaser"], fi["params"], fi["mode"], fi["np_seed"])
+    elif fi["kind"] == "dated":
+        prob, info = run_dated_case(fi["debiaser"], fi["params"], fi["mode"], fi["np_seed"])
     elif fi["kind"] == "ISIMIP":
         prob, info = run_isimip_case(fi["var"], fi["overrides"], fi["stage"], fi["np_seed"], fi.get("dry"), fi.get("mode", "normal"))
     else:
